@@ -13,6 +13,8 @@ Open Scope Z_scope.
 Definition U_RUN_TRACKNO := 20. Definition U_RUN_TIE := 21. Definition U_RUN_VSUB := 22. Definition U_RUN_LOOPCOUNT := 23.
 Definition U_RUN_CHAR := 24. Definition U_RUN_SIZE := 25.
 
+Definition SYSEX_MAX : Z := 100000.
+
 Definition note_len_real (notelen qlen : Z) : Z := Z.quot (notelen * qlen) 100.
    (* (notelen as f32 * qlen as f32 / 100.0) as isize ; exact while notelen*qlen < 2^24 and the quotient < 2^17 *)
 
@@ -217,6 +219,19 @@ Definition add_events (s : song) (f : Z -> Z -> list event) : song :=
   let trk := cur_track s in
   upd_cur s (fun t => tr_push_events t (f (tr_timepos trk) (tr_channel trk))).
 
+(* the SysEx arm: no value at all is a runtime error; F0 / F7 are supplied (Cmd.cmd_sysex); the device number is a u8 field *)
+Definition exec_sysex (s : song) (checksum : Z) (args : list Z) : res song :=
+  match args with
+  | [] => Ok (runtime_error s (zs "SysEx : " ++ msg_en_ErrorWrongArguments))
+  | _ =>
+      if SYSEX_MAX <? zlen args then Unsupported U_RUN_SIZE        (* a message beyond any reasonable size *)
+      else Ok (add_events s (fun tp _ => Cmd.cmd_sysex tp args (checksum =? 1)))
+  end.
+(* the GSEffect arm (data[0] of the custom effects exists: read_args_tokens yields at least one argument) *)
+Definition exec_gs_effect (s : song) (tag a : Z) (rest : list Z) : res song :=
+  do evs <- Cmd.cmd_gs_effect (tr_timepos (cur_track s)) (as_u8 (s_device s)) (tr_channel (cur_track s)) tag (a :: rest);
+  Ok (add_events s (fun _ _ => evs)).
+
 (* exec_cc_rpn_nrpn_direct *)
 Definition exec_rpn_direct (s : song) (nrpn : bool) (args : list Z) : song :=
   match args with
@@ -365,6 +380,11 @@ Section Exec.
         (* trk.port = port (a field nothing reads); FF 21 01 <port as u8> at the pointer of the current track *)
         Ok (add_events s (fun tp _ => Cmd.cmd_port tp v))
     | TTempoChange a rest => exec_tempo_change s a rest
+    | TSysEx checksum args => exec_sysex s checksum args
+    | TSysexReset kind => Ok (add_events s (fun tp _ => Cmd.cmd_sysex_reset tp (as_u8 (s_device s)) kind))
+    | TSysExCommand tag args => Ok (add_events s (fun tp _ => Cmd.cmd_sysex_command tp tag args))
+    | TGSEffect tag a rest => exec_gs_effect s tag a rest
+    | TDeviceNumber args => Ok (s_set_device s (as_u8 (nth 0 args 0)))
     end.
 
   Definition step_tok (t : tok) (s : res song) : res song := do sg <- s; step_song t sg.
